@@ -6,7 +6,7 @@
 (* never hides the rest of the trace.  One line is printed per event that  *)
 (* is not explained by the ideal specification.                            *)
 (***************************************************************************)
-EXTENDS PushInterp, Json, IOUtils
+EXTENDS Deviations, Json, IOUtils
 
 Rec == ndJsonDeserialize(IOEnv.TRACE)
 
@@ -22,17 +22,55 @@ Subject(pre, act) ==
      (IF pre.exec # <<>> /\ pre.exec[1].k = "ins" THEN pre.exec[1].v ELSE "step:" \o StepKind(pre))
   ELSE act.a
 
-JudgeStep(e, pre) ==
-  LET sr == Step(pre) IN
-  IF Crashed(e) THEN [v |-> "crash", subj |-> Subject(pre, e.act), fields |-> <<>>, msg |-> e.post.msg]
-  ELSE IF Matches(sr.res, e.post) /\ e.ret = sr.done
-       THEN [v |-> "ok", subj |-> Subject(pre, e.act), fields |-> <<>>, msg |-> ""]
-  ELSE [v |-> "mismatch", subj |-> Subject(pre, e.act),
-        fields |-> SetAsSeq(Mismatch(sr.res, e.post)), msg |-> ""]
+\* property that owns the value semantics of a step subject (verdict ownership, DESIGN 5)
+Owner(subj) ==
+  IF subj \in StackOpNames THEN
+     (IF StackOpOf[subj][2] = "DEFINE" THEN "C07" ELSE "C05")
+  ELSE IF subj \in {"CODE.DEFINITION", "NAME.QUOTE", "step:quoted", "step:bound", "step:free"} THEN "C07"
+  ELSE IF subj \in ScalarInstr \cup {"CODE.FROMBOOLEAN", "CODE.FROMFLOAT", "CODE.FROMINTEGER", "CODE.FROMNAME"} THEN "C04"
+  ELSE IF subj \in {"CODE.DO", "CODE.DO*", "CODE.IF", "CODE.LOOP", "CODE.QUOTE", "INTVECTOR.LOOP",
+                    "step:list", "step:literal", "step:empty", "step:unknown", "NOOP", "CODE.NOOP",
+                    "VERIF.PROBE", "VERIF.SLEEP"}
+          \cup ExecInstr \cup IndexInstr THEN "C06"
+  ELSE IF subj = "CODE.RAND" THEN "C12"
+  ELSE IF subj \in CodeInstr THEN "C08"
+  ELSE IF subj \in VectorInstr THEN "C09"
+  ELSE IF subj \in {"LIST.NEIGHBOR*IDS", "LIST.NEIGHBOR*BVALS", "LIST.NEIGHBOR*IVALS", "LIST.NEIGHBOR*FVALS"} THEN "C20"
+  ELSE IF subj \in ListInstr THEN "C19"
+  ELSE IF subj \in IOInstr THEN "C17"
+  ELSE IF subj \in GraphInstr THEN "C18"
+  ELSE IF subj \in RandInstr THEN "C13"
+  ELSE "C06"
 
+\* the first deviation that explains the observation, or ""
+RECURSIVE FirstDev(_, _)
+FirstDev(devs, e) ==
+  IF devs = <<>> THEN ""
+  ELSE LET d == Head(devs) IN
+       IF (d.crash /\ Crashed(e)) \/ (~d.crash /\ ~Crashed(e) /\ Matches(d.res, e.post)) THEN d.id
+       ELSE FirstDev(Tail(devs), e)
+
+\* C10 is judged on its own predicate, independently of whether the values are right
+FrameJudge(e, pre, sr) ==
+  IF Crashed(e) \/ sr.kind # "instr" THEN <<>>
+  ELSE SetAsSeq(FrameViolations(pre.exec[1].v, PopN(pre, "exec", 1), e.post, sr.res.fired))
+
+JudgeStep(e, pre) ==
+  LET sr   == Step(pre)
+      subj == Subject(pre, e.act)
+      ok   == ~Crashed(e) /\ Matches(sr.res, e.post) /\ e.ret = sr.done
+      dev  == IF ok THEN "" ELSE FirstDev(DevStep(pre), e)
+  IN [v |-> IF ok THEN "ok" ELSE IF dev # "" THEN "dev" ELSE IF Crashed(e) THEN "crash" ELSE "mismatch",
+      subj |-> subj, owner |-> Owner(subj), dev |-> dev,
+      fields |-> IF ok \/ Crashed(e) THEN <<>> ELSE SetAsSeq(Mismatch(sr.res, e.post)),
+      frame |-> IF dev # "" THEN <<>> ELSE FrameJudge(e, pre, sr),
+      msg |-> IF Crashed(e) THEN e.post.msg ELSE ""]
+
+Blank(v, subj) == [v |-> v, subj |-> subj, owner |-> "", dev |-> "", fields |-> <<>>, frame |-> <<>>, msg |-> ""]
 Judge(e, pre) ==
-  CASE e.act.a = "step" -> JudgeStep(e, pre)
-    [] OTHER -> [v |-> "unknown-act", subj |-> e.act.a, fields |-> <<>>, msg |-> ""]
+  CASE HasF(e, "envelope") -> Blank("envelope", e.envelope)
+    [] e.act.a = "step" -> JudgeStep(e, pre)
+    [] OTHER -> Blank("unknown-act", e.act.a)
 
 Init == l = 1 /\ cur = EmptyState
 
@@ -41,7 +79,7 @@ Consume ==
   /\ LET e   == Rec[l]
          pre == IF HasF(e, "pre") THEN e.pre ELSE cur
          j   == Judge(e, pre)
-     IN /\ (j.v # "ok" => PrintT("EV " \o ToJson([l |-> l, id |-> e.id, i |-> e.i, j |-> j])))
+     IN /\ ((j.v # "ok" \/ j.frame # <<>>) => PrintT("EV " \o ToJson([l |-> l, id |-> e.id, i |-> e.i, j |-> j])))
         /\ cur' = IF Crashed(e) THEN EmptyState ELSE e.post
   /\ l' = l + 1
 
